@@ -312,6 +312,10 @@ pub struct DesignRoot {
     // Tracks which units have a "use library.all;" clause.
     // library name  =>  set(affected)
     users_of_library_all: RwLock<FnvHashMap<Symbol, FnvHashSet<UnitId>>>,
+
+    /// Verification hook H2: what the last `reset`/`analyze` did.
+    #[cfg(vhdl_ls_rust_hdl_verif)]
+    verif_trace: VerifTrace,
 }
 
 impl DesignRoot {
@@ -328,6 +332,8 @@ impl DesignRoot {
             users_of: RwLock::new(FnvHashMap::default()),
             missing_unit: RwLock::new(FnvHashMap::default()),
             users_of_library_all: RwLock::new(FnvHashMap::default()),
+            #[cfg(vhdl_ls_rust_hdl_verif)]
+            verif_trace: VerifTrace::default(),
         }
     }
 
@@ -921,6 +927,12 @@ impl DesignRoot {
             }
         }
 
+        #[cfg(vhdl_ls_rust_hdl_verif)]
+        {
+            self.verif_trace.added = verif_ids(added.iter());
+            self.verif_trace.removed = verif_ids(removed.iter());
+        }
+
         let mut affected: FnvHashSet<_> = added.union(&removed).cloned().collect();
         let changed: FnvHashSet<_> = removed.intersection(&added).cloned().collect();
         removed = removed.difference(&changed).cloned().collect();
@@ -1006,6 +1018,15 @@ impl DesignRoot {
         drop(users_of);
         drop(users_of_library_all);
         drop(missing_unit);
+
+        #[cfg(vhdl_ls_rust_hdl_verif)]
+        {
+            self.verif_trace.reset = verif_ids(all_affected.iter());
+            let (users_of, users_of_library_all, missing_unit) = self.verif_dependency_maps();
+            self.verif_trace.users_of = users_of;
+            self.verif_trace.users_of_library_all = users_of_library_all;
+            self.verif_trace.missing_unit = missing_unit;
+        }
 
         removed
     }
@@ -1226,6 +1247,11 @@ impl DesignRoot {
             }
         }
 
+        #[cfg(vhdl_ls_rust_hdl_verif)]
+        {
+            self.verif_trace.reanalyzed = verif_ids(units.iter());
+        }
+
         // The primary unit of a removed secondary unit is reported as well, what is
         // known about it together with its secondary units (lints) is out of date
         for removed_unit in removed.iter() {
@@ -1239,6 +1265,11 @@ impl DesignRoot {
                     }
                 }
             }
+        }
+
+        #[cfg(vhdl_ls_rust_hdl_verif)]
+        {
+            self.verif_trace.analyzed = verif_ids(units.iter());
         }
 
         units
@@ -1289,6 +1320,132 @@ fn get_all_affected(
         affected = std::mem::replace(&mut next_affected, affected);
     }
     all_affected
+}
+
+/// Verification hook H2 (only with `--cfg vhdl_ls_rust_hdl_verif`): a textual record of the
+/// dependency bookkeeping of the last call of `DesignRoot::analyze`.
+/// Unit ids are printed as `library|kind|primary|secondary` (secondary `-` for primary units),
+/// missing unit keys as `library|primary|secondary`; all lists are sorted.
+#[cfg(vhdl_ls_rust_hdl_verif)]
+#[derive(Default, Clone, Debug)]
+pub struct VerifTrace {
+    /// `added` / `removed` as collected from the libraries at the start of `reset`
+    pub added: Vec<String>,
+    pub removed: Vec<String>,
+    /// the units whose analysis state `reset` cleared (`all_affected`)
+    pub reset: Vec<String>,
+    /// the three dependency maps as (key, user) pairs right after `reset`
+    pub users_of: Vec<(String, String)>,
+    pub users_of_library_all: Vec<(String, String)>,
+    pub missing_unit: Vec<(String, String)>,
+    /// the units that were not analysed when `analyze` started (they are analysed by it)
+    pub reanalyzed: Vec<String>,
+    /// the return value of `analyze`
+    pub analyzed: Vec<String>,
+}
+
+#[cfg(vhdl_ls_rust_hdl_verif)]
+fn verif_id(unit_id: &UnitId) -> String {
+    let kind = match unit_id.kind() {
+        AnyKind::Primary(PrimaryKind::Entity) => "entity",
+        AnyKind::Primary(PrimaryKind::Configuration) => "configuration",
+        AnyKind::Primary(PrimaryKind::Package) => "package",
+        AnyKind::Primary(PrimaryKind::PackageInstance) => "package_instance",
+        AnyKind::Primary(PrimaryKind::Context) => "context",
+        AnyKind::Secondary(SecondaryKind::Architecture) => "architecture",
+        AnyKind::Secondary(SecondaryKind::PackageBody) => "package_body",
+    };
+    format!(
+        "{}|{}|{}|{}",
+        unit_id.library_name().name_utf8(),
+        kind,
+        unit_id.primary_name().name_utf8(),
+        unit_id
+            .secondary_name()
+            .map(|name| name.name_utf8())
+            .unwrap_or_else(|| "-".to_string())
+    )
+}
+
+#[cfg(vhdl_ls_rust_hdl_verif)]
+fn verif_ids<'a>(unit_ids: impl Iterator<Item = &'a UnitId>) -> Vec<String> {
+    let mut result: Vec<String> = unit_ids.map(verif_id).collect();
+    result.sort();
+    result
+}
+
+#[cfg(vhdl_ls_rust_hdl_verif)]
+impl DesignRoot {
+    /// What the last `analyze` did
+    pub fn verif_trace(&self) -> VerifTrace {
+        self.verif_trace.clone()
+    }
+
+    /// The current contents of `users_of`, `users_of_library_all`, `missing_unit`
+    /// as sorted (key, user) pairs
+    #[allow(clippy::type_complexity)]
+    pub fn verif_dependency_maps(
+        &self,
+    ) -> (
+        Vec<(String, String)>,
+        Vec<(String, String)>,
+        Vec<(String, String)>,
+    ) {
+        let mut users_of = Vec::new();
+        for (unit_id, users) in self.users_of.read().iter() {
+            for user in users.iter() {
+                users_of.push((verif_id(unit_id), verif_id(user)));
+            }
+        }
+        users_of.sort();
+        let mut users_of_library_all = Vec::new();
+        for (library_name, users) in self.users_of_library_all.read().iter() {
+            for user in users.iter() {
+                users_of_library_all.push((library_name.name_utf8(), verif_id(user)));
+            }
+        }
+        users_of_library_all.sort();
+        let mut missing_unit = Vec::new();
+        for ((library_name, primary_name, secondary_name), users) in self.missing_unit.read().iter()
+        {
+            let key = format!(
+                "{}|{}|{}",
+                library_name.name_utf8(),
+                primary_name.name_utf8(),
+                secondary_name
+                    .as_ref()
+                    .map(|name| name.name_utf8())
+                    .unwrap_or_else(|| "-".to_string())
+            );
+            for user in users.iter() {
+                missing_unit.push((key.clone(), verif_id(user)));
+            }
+        }
+        missing_unit.sort();
+        (users_of, users_of_library_all, missing_unit)
+    }
+
+    /// Every design unit of every library:
+    /// (unit id, file name, is analysed, analysis ended with a circular dependency error)
+    pub fn verif_units(&self) -> Vec<(String, String, bool, bool)> {
+        let mut result = Vec::new();
+        for library in self.libraries.values() {
+            for unit in library.units.values() {
+                let (analyzed, circular) = match unit.unit.get() {
+                    Some(data) => (true, data.result().has_circular_dependency),
+                    None => (false, false),
+                };
+                result.push((
+                    verif_id(unit.unit_id()),
+                    unit.source().file_name().to_string_lossy().to_string(),
+                    analyzed,
+                    circular,
+                ));
+            }
+        }
+        result.sort();
+        result
+    }
 }
 
 pub struct EntHierarchy<'a> {
